@@ -85,3 +85,9 @@ Proofs/C18Facts.vos Proofs/C18Facts.vok Proofs/C18Facts.required_vos: Proofs/C18
 Props/C18.vo Props/C18.glob Props/C18.v.beautified Props/C18.required_vo: Props/C18.v Base/Result.vo Base/Str.vo Base/AstOp.vo Model/Ast.vo Model/Ctc.vo Model/Sem.vo Proofs/C18Facts.vo
 Props/C18.vio: Props/C18.v Base/Result.vio Base/Str.vio Base/AstOp.vio Model/Ast.vio Model/Ctc.vio Model/Sem.vio Proofs/C18Facts.vio
 Props/C18.vos Props/C18.vok Props/C18.required_vos: Props/C18.v Base/Result.vos Base/Str.vos Base/AstOp.vos Model/Ast.vos Model/Ctc.vos Model/Sem.vos Proofs/C18Facts.vos
+Proofs/C20Facts.vo Proofs/C20Facts.glob Proofs/C20Facts.v.beautified Proofs/C20Facts.required_vo: Proofs/C20Facts.v Base/Result.vo Base/Str.vo Base/AstOp.vo Model/Ast.vo Model/FM.vo Model/Ctc.vo Model/Queries.vo Model/EqHash.vo Proofs/FMFacts.vo
+Proofs/C20Facts.vio: Proofs/C20Facts.v Base/Result.vio Base/Str.vio Base/AstOp.vio Model/Ast.vio Model/FM.vio Model/Ctc.vio Model/Queries.vio Model/EqHash.vio Proofs/FMFacts.vio
+Proofs/C20Facts.vos Proofs/C20Facts.vok Proofs/C20Facts.required_vos: Proofs/C20Facts.v Base/Result.vos Base/Str.vos Base/AstOp.vos Model/Ast.vos Model/FM.vos Model/Ctc.vos Model/Queries.vos Model/EqHash.vos Proofs/FMFacts.vos
+Props/C20.vo Props/C20.glob Props/C20.v.beautified Props/C20.required_vo: Props/C20.v Base/Str.vo Model/FM.vo Model/Queries.vo Model/EqHash.vo Proofs/C20Facts.vo
+Props/C20.vio: Props/C20.v Base/Str.vio Model/FM.vio Model/Queries.vio Model/EqHash.vio Proofs/C20Facts.vio
+Props/C20.vos Props/C20.vok Props/C20.required_vos: Props/C20.v Base/Str.vos Model/FM.vos Model/Queries.vos Model/EqHash.vos Proofs/C20Facts.vos
